@@ -4,7 +4,7 @@ between the markers <!-- SEEDTABLE:BEGIN --> and <!-- SEEDTABLE:END -->"""
 import json, os, re, sys
 V = os.path.dirname(os.path.dirname(os.path.abspath(__file__)))
 rows = []
-for d in sorted(os.listdir(os.path.join(V, 'seeded')), key=lambda s: (s.split('-')[0], int(s.split('-')[1]))):
+for d in sorted((x for x in os.listdir(os.path.join(V, 'seeded')) if re.fullmatch(r'C\d\d-\d+', x)), key=lambda s: (s.split('-')[0], int(s.split('-')[1]))):
     m = json.load(open(os.path.join(V, 'seeded', d, 'meta.json')))
     readme = os.path.join(V, 'seeded', d, 'README.md')
     head = ''
